@@ -56,6 +56,38 @@ fn path_closure(x: f64) -> Result<f64, String> {
     }
 }
 
+
+/// Bodies in which the captured number sits next to an operator that binds tighter or differently
+/// than a sign (postfix, power, unary, division, index, nesting): the reloaded closure must answer
+/// exactly as the original does.
+const POSITION_BODIES: &[&str] = &[
+    "c!", "1 / c!", "c ^ 2", "2 ^ c", "c ^ c", "-c", "1 / -c", "1 / c", "1 - c", "c - 1", "c * c", "[c][0]", "1 / [c, 2][0]", "{a: c}.a", "c % 3", "not (c > 1)",
+    "if c >= 0 then 1 / c else c", "to_string(c)", "(c)!", "-c ^ 2", "[c!, c ^ 2, -c, 1 / c]", "x => x + c", "abs(c)", "c == 0 - c",
+];
+
+fn path_closure_positions(x: f64) -> Vec<(String, Outcome, Result<Outcome, String>)> {
+    let mut out = vec![];
+    for body in POSITION_BODIES {
+        let mut s = Session::new();
+        s.env.insert("c".to_string(), Value::Number(x));
+        if !s.run(&format!("f = () => {}", body)).is_ok() {
+            continue;
+        }
+        let call = if body.starts_with("x =>") { "f()(1)" } else { "f()" };
+        let orig = s.run(call);
+        let reloaded = (|| -> Result<Outcome, String> {
+            let v = s.env.get("f").ok_or("f unbound")?;
+            let sv = SerializableValue::from_value(&v, &s.heap.borrow()).map_err(|e| e.to_string())?;
+            let text = serde_json::to_string(&sv.to_json()).map_err(|e| e.to_string())?;
+            let j: J = serde_json::from_str(&text).map_err(|e| e.to_string())?;
+            let mut re = Session::with_inputs(&[("f", j)]);
+            Ok(re.run(&call.replacen("f", "inputs.f", 1)))
+        })();
+        out.push((body.to_string(), orig, reloaded));
+    }
+    out
+}
+
 /// literal in a program -> formatter -> parser (x >= 0)
 fn path_formatter(x: f64) -> Result<f64, String> {
     let e = Spanned::dummy(Expr::Number(x));
@@ -176,6 +208,13 @@ pub fn run(ctx: &Ctx, replay: Option<&J>) -> i32 {
         let x = f64::from_bits(u64::from_str_radix(c["bits"].as_str().unwrap_or("0"), 16).unwrap_or(0));
         println!("x = {:?} ({:016x})", x, x.to_bits());
         println!("  to_string/to_number: {:?}\n  json: {:?}\n  closure: {:?}\n  formatter: {:?}", path_string(x), path_json(x), path_closure(x), path_formatter(x.abs()));
+        if let Some(b) = c["body"].as_str() {
+            for (body, orig, reloaded) in path_closure_positions(x) {
+                if body == b {
+                    println!("  f = () => {}: original {:?}, reloaded {:?}", body, orig, reloaded);
+                }
+            }
+        }
         return 1;
     }
     let thorough = !ctx.quick();
@@ -211,6 +250,40 @@ pub fn run(ctx: &Ctx, replay: Option<&J>) -> i32 {
             }
         }
     });
+    // ---- captured numbers in operator positions
+    {
+        let step = if thorough { 2 } else { 16 };
+        let mut sub: Vec<f64> = grid.iter().cloned().step_by(step).collect();
+        sub.extend([0.0, -0.0, 1.0, -1.0, 2.0, -2.0, 3.0, -3.0, 0.5, -0.5, 170.0, 171.0, 1e21, -1e21, 5e-324, -5e-324, f64::INFINITY, f64::NEG_INFINITY]);
+        par_for_ctx(ctx, sub.len(), |i| {
+            let x = sub[i];
+            let rows = catch(|| path_closure_positions(x)).unwrap_or_default();
+            if rows.is_empty() {
+                ctx.machinery_error(format!("closure positions produced nothing for {:?}", x));
+            }
+            for (body, orig, reloaded) in rows {
+                ctx.count(1);
+                ctx.outcome("closure-position");
+                let same_outcome = match (&orig, &reloaded) {
+                    (Outcome::Ok(a), Ok(Outcome::Ok(b))) => a == b,
+                    (Outcome::Ok(_), _) => false,
+                    (_, Ok(Outcome::Ok(_))) => false,
+                    (_, Ok(_)) => true,
+                    (_, Err(_)) => false,
+                };
+                if !same_outcome {
+                    ctx.violation(Violation {
+                        kind: "path-closure-position".into(),
+                        class: "grid".into(),
+                        input: format!("c = {:?} ({:016x}); f = () => {}", x, x.to_bits(), body),
+                        expected: format!("{:?}", orig),
+                        observed: format!("{:?}", reloaded),
+                        case: json!({"bits": format!("{:016x}", x.to_bits()), "body": body}),
+                    });
+                }
+            }
+        });
+    }
     // ---- literals
     let mut lits = literal_candidates(if thorough { 7 } else { 5 });
     lits.extend(radix_literals());
